@@ -124,6 +124,11 @@ pub enum Op {
     AmendChurn { target: Target, n: u32 },
     /// add `n` orders under fresh reserved ids that stay resting
     Burst { n: u32, spec: OrderSpec },
+    /// an operation on a *sibling* level (another `PriceLevel` with the same price, living next to
+    /// the one under test, holding orders under the same ids): 0 add, 1 match, 2 cancel, 3 snapshot
+    /// JSON round trip, 4 text round trip, 5 serde round trip. Nothing it does may show on the level
+    /// under test (no state is shared between levels).
+    Sibling { what: u8, slot: u16, spec: OrderSpec, qty: u64 },
     /// amend every resting order that shows nothing to `qty` displayed (same-price quantity
     /// amendments, in listing order or reversed; at most 64 of them)
     Revive { qty: u64, rev: bool },
@@ -364,6 +369,12 @@ pub fn op_strategy(cfg: HistCfg, profile: Profile) -> BoxedStrategy<Op> {
             .prop_map(|(churn, n, bn, spec)| if churn { Op::Churn { n, spec, ghost: false } } else { Op::Burst { n: bn, spec } })
             .boxed(),
     ));
+    v.push((
+        (cfg.w_add / 12).max(1),
+        (0u8..6, any::<u16>(), gen::order_spec(OrderGenCfg { profile: Profile::Small, zero_display: cfg.zeros, zero_amount: cfg.zeros, kind_weights: cfg.kind_weights }), 1u64..=12)
+            .prop_map(|(what, slot, spec, qty)| Op::Sibling { what, slot, spec, qty })
+            .boxed(),
+    ));
     if cfg.zeros {
         v.push((
             (cfg.w_upd_qty / 3).max(1),
@@ -485,6 +496,8 @@ pub enum OpResult {
 
 #[derive(Clone, Debug, Default)]
 pub struct Facts {
+    /// operations performed on a sibling level (same price, same ids) next to the one under test
+    pub sibling_ops: u64,
     /// orders showing nothing that were amended to a positive display by a Revive operation
     pub revived: u64,
     /// matches whose makers the tracked ticket queue predicted exactly / did not predict
@@ -708,6 +721,7 @@ pub struct Interp {
     /// a deviation from arrival order is attributed to them only if the makers of the match are
     /// exactly those this queue yields. None = not tracked any more (a prediction failed, the
     /// model diverged, or a rebuild with tied timestamps).
+    pub sibling: Option<(PriceLevel, UuidGenerator, HashSet<IdKey>)>,
     pub tq: Option<VecDeque<OrderId>>,
     /// verdict for the match being audited: Some(true) the ticket queue yields exactly the
     /// observed makers and quantities, Some(false) it does not, None not tracked
@@ -780,6 +794,7 @@ impl Interp {
             taker_counter: 0,
             trace: Vec::new(),
             keep_trace: false,
+            sibling: None,
             tq: Some(VecDeque::new()),
             tq_verdict: None,
         }
@@ -1250,6 +1265,66 @@ impl Interp {
                     self.event_since_match = true;
                 }
                 OpResult::Bulk
+            }
+            Op::Sibling { what, slot, spec, qty } => {
+                if self.skip_reads {
+                    return OpResult::Read;
+                }
+                let id = self.resolve(Target::Resting(*slot));
+                let price = self.price;
+                let mut sp = *spec;
+                sp.display = sp.display.min(5);
+                sp.hidden = sp.hidden.min(5);
+                if !self.zeros {
+                    sp.display = sp.display.max(1);
+                }
+                sp.own_price = None;
+                let order = sp.build(id, price);
+                let sib = self.sibling.get_or_insert_with(|| (PriceLevel::new(price), UuidGenerator::new(uuid::Uuid::from_u128(0x51b1)), HashSet::new()));
+                let (level, gen, ids) = (&sib.0, &sib.1, &mut sib.2);
+                let (what, qty) = (*what, *qty);
+                let key = id_key(id);
+                let r = catch(|| match what % 6 {
+                    0 => {
+                        if ids.insert(key) {
+                            level.add_order(order);
+                        }
+                    }
+                    1 => {
+                        let res = level.match_order(qty, OrderId::from_u64(0x51B0_0000), gen);
+                        for f in res.filled_order_ids.iter() {
+                            ids.remove(&id_key(*f));
+                        }
+                    }
+                    2 => {
+                        if let Ok(Some(_)) = level.update_order(OrderUpdate::Cancel { order_id: id }) {
+                            ids.remove(&key);
+                        }
+                    }
+                    3 => {
+                        if let Ok(j) = level.snapshot_to_json() {
+                            let _ = PriceLevel::from_snapshot_json(&j);
+                        }
+                    }
+                    4 => {
+                        let _ = <PriceLevel as std::str::FromStr>::from_str(&level.to_string());
+                    }
+                    _ => {
+                        if let Ok(j) = serde_json::to_string(level) {
+                            let _ = serde_json::from_str::<PriceLevel>(&j);
+                        }
+                    }
+                });
+                // (orders that left the sibling silently - nothing displayed, nothing hidden - may be
+                // added again later: resynchronise the id set from its listing)
+                if let Some(sib) = self.sibling.as_mut() {
+                    sib.2 = sib.0.iter_orders().iter().map(|o| id_key(o.id())).collect();
+                }
+                self.facts.sibling_ops += 1;
+                if let Err(m) = r {
+                    self.violate(Oracle::Panic, format!("an operation on a sibling level panicked: {m}"));
+                }
+                OpResult::Read
             }
             Op::Revive { qty, rev } => {
                 let mut ids: Vec<(u64, OrderId)> = self
